@@ -109,9 +109,19 @@ def scan(facts, body, err_substr=None, include_expansions=False):
         for st in blk["s"]:
             if st[0] == "a" and st[2][0] == "discr" and op_local(t[1]) == st[1][0]:
                 rl = st[2][1][0]
-                if st[2][1][1]:
-                    continue
-                rty = body.local_ty(rl)
+                proj = st[2][1][1]
+                inner_opt = False
+                if proj:
+                    # `Some(Ok(..))` / `Some(Err(..))` patterns: discriminant of ((opt as Some).0) where opt: Option<Result<..>>
+                    oty = body.local_ty(rl)
+                    if (len(proj) == 2 and isinstance(proj[0], list) and proj[0][0] == "d" and proj[0][1] == "Some"
+                            and isinstance(proj[1], list) and proj[1][0] == "f" and oty.startswith("core::option::Option<" + RES)):
+                        inner_opt = True
+                        rty = oty[len("core::option::Option<"):-1]
+                    else:
+                        continue
+                else:
+                    rty = body.local_ty(rl)
                 if not is_result_ty(rty, err_substr):
                     continue
                 if st[4] == "d":
@@ -132,12 +142,18 @@ def scan(facts, body, err_substr=None, include_expansions=False):
                     for s2 in b2["s"]:
                         if s2[0] == "a":
                             for pl in _places_of_rvalue(s2[2]):
-                                if pl[0] == rl and any(isinstance(p, list) and p[0] == "d" and p[2] == 1 for p in pl[1]):
+                                if pl[0] == rl and any(isinstance(p, list) and p[0] == "d" and p[1] == "Err" for p in pl[1]):
                                     payload_read = True
+                                if pl[0] == rl and not inner_opt and any(isinstance(p, list) and p[0] == "d" and p[2] == 1 for p in pl[1]):
+                                    payload_read = True
+                                if pl[0] == rl and inner_opt and not pl[1] and s2[2][0] == "use" and s2[2][1][0] == "m":
+                                    payload_read = True  # the whole Option<Result> is moved on (e.g. returned)
                     t2 = b2["t"]
                     if t2[0] == "call":
                         for a in t2[2]:
-                            if a[0] in ("c", "m") and a[1][0] == rl and any(isinstance(p, list) and p[0] == "d" and p[2] == 1 for p in a[1][1]):
+                            if a[0] in ("c", "m") and a[1][0] == rl and any(isinstance(p, list) and p[0] == "d" and (p[1] == "Err" or (p[2] == 1 and not inner_opt)) for p in a[1][1]):
+                                payload_read = True
+                            if a[0] == "m" and a[1][0] == rl and inner_opt and not a[1][1]:
                                 payload_read = True
                 if payload_read:
                     continue
